@@ -10,6 +10,7 @@
 namespace c14 {
 namespace A = ASAM::CMP;
 
+static volatile uint64_t g_sink14;
 struct Item
 {
     std::string name;
@@ -355,6 +356,54 @@ static inline void histCase(W& w, const std::vector<Item>& P, const std::vector<
     w.outcome(mc::mix(11, mc::mix(cur, ops.size() ? ops.back() : 0)));
 }
 
+// A copy construction / copy assignment aborted by the failure of its n-th allocation: the source is unchanged, the target is still
+// an object that can be observed, destroyed and assigned to, and the repeated assignment gives it the source's value. Returns false
+// if the operation makes fewer than n allocations.
+static inline bool abortedCopy(W& w, const std::vector<Item>& P, size_t si, size_t ti, int n, bool construct)
+{
+    A::Packet src = P[si].make();
+    const std::string want = observe(src, P[si].hasPayload);
+    A::Packet tgt = P[ti].make();
+    bool thrown = false;
+    mc::af::arm(n);
+    try
+    {
+        if (construct)
+        {
+            A::Packet c(src);
+            mc::af::disarm();
+            g_sink14 = g_sink14 + c.getTimestamp();
+        }
+        else
+            tgt = src;
+    }
+    catch (const std::bad_alloc&)
+    {
+        thrown = true;
+    }
+    const bool fired = mc::af::disarm();
+    if (!fired)
+        return false;
+    w.add(mc::C_TRANS, 2);
+    const std::string key = construct ? "value:aborted-copy-construct" : "value:aborted-copy-assign";
+    if (!thrown)
+        w.fail(key + ":allocation-failure-swallowed", "an allocation failed inside the copy, the operation completed normally");
+    if (observe(src, P[si].hasPayload) != want)
+        w.fail(key + ":source-changed", "the aborted copy of '" + P[si].name + "' changed the source");
+    if (!construct)
+    {
+        // the target holds its old or the new value (either is fine) - reading it must be safe
+        std::string mid = tgt.isValid() || true ? observe(tgt, false) : std::string();
+        (void) mid;
+        tgt = src;
+        std::string got = observe(tgt, P[si].hasPayload);
+        if (got != want)
+            w.fail(key + ":repeated-assignment-differs-from-source", "'" + P[ti].name + "' = '" + P[si].name + "' aborted at allocation " + std::to_string(n) + " and repeated: target is {" + got + "}, source is {" + want + "}");
+    }
+    w.outcome(mc::mix(17, mc::mix(si * 64 + ti, (uint64_t) n * 2 + construct)));
+    return true;
+}
+
 static inline void eqCase(W& w, const std::vector<Item>& P, size_t ai, size_t bi)
 {
     A::Packet a = P[ai].make(), b = P[bi].make();
@@ -573,6 +622,7 @@ static int runC14(mc::Run& run, const mc::Options& opt)
             histCase(w, P, sub, n("t"), ops);
         }
         else if (kv["k"] == "xcls") crossClassCases(w, cs);
+        else if (kv["k"] == "abort") abortedCopy(w, P, n("s"), n("t"), atoi(kv["n"].c_str()), kv["op"] == "construct");
         else if (kv["k"] == "pl")
         {
             if (kv["cls"] == "Payload") payloadCases<ASAM::CMP::Payload>(w, "Payload", asamPayloads(), cs);
@@ -675,6 +725,29 @@ static int runC14(mc::Run& run, const mc::Options& opt)
                       });
         }
     }
+    run.round("copy construction / copy assignment aborted by the failure of its n-th allocation (every n) and repeated: every ordered (source, target) pair", P.size(), [&](W& w, uint64_t si) {
+        for (size_t ti = 0; ti < P.size(); ++ti)
+            for (int construct = 0; construct < 2; ++construct)
+            {
+                if (construct && ti != 0)
+                    continue;
+                for (int n = 1; n < 40; ++n)
+                {
+                    {
+                        W probe;
+                        probe.single = true;
+                        if (!abortedCopy(probe, P, si, ti, n, construct != 0))
+                            break;
+                    }
+                    auto desc = [&] { return ofmt("k=abort;op=%s;s=%zu;t=%zu;n=%d", construct ? "construct" : "assign", (size_t) si, ti, n); };
+                    if (!w.begin_case(desc))
+                        continue;
+                    abortedCopy(w, P, si, ti, n, construct != 0);
+                    w.add(mc::C_TRACES, 1);
+                    w.add(mc::C_STATES, 2);
+                }
+            }
+    });
     run.round("equality on every ordered pair", P.size(), [&](W& w, uint64_t ai) {
         for (size_t bi = 0; bi < P.size(); ++bi)
         {
